@@ -195,6 +195,55 @@ const (
 	pCall = 11
 )
 
+// spellings of a name used by the probes: the exact one (full oracle) and two case variants
+// (leak-only oracle: whether a VM finds its own / the base's definitions under a folded spelling
+// is left open, but it must never find a definition owned by another temporary VM).
+const (
+	spExact = iota
+	spLower
+	spUpper
+)
+
+var spellLabel = [3]string{"", "~lower", "~UPPER"}
+
+// judgeVariant is the leak-only oracle for a case-variant spelling.
+func judgeVariant(m *model, h []Op, v int, p probe, name int, got string) (rel, exp, cat string) {
+	al := m.allowed(v, p.Kinds, name)
+	exp = "unresolved or one of " + ids(al)
+	switch {
+	case got == "y":
+		if len(al) == 0 {
+			if v == 0 {
+				return "leak-to-base", "n", ""
+			}
+			return "leak-to-temp", "n", ""
+		}
+		return "", exp, "variant:resolved"
+	case strings.HasPrefix(got, "d"):
+		var d int
+		if _, err := fmt.Sscanf(got, "d%d", &d); err != nil {
+			return "", exp, "variant:other"
+		}
+		for _, a := range al {
+			if a == d {
+				return "", exp, "variant:resolved"
+			}
+		}
+		if d < 0 || d >= len(h) || h[d].K != opDefine {
+			return "foreign-definition", exp, ""
+		}
+		if v == 0 {
+			return "leak-to-base", exp, ""
+		}
+		if m.status[h[d].VM] == stDead {
+			return "leak-from-discarded", exp, ""
+		}
+		return "leak-to-temp", exp, ""
+	default:
+		return "", exp, "variant:unresolved"
+	}
+}
+
 func srcID(src string) string {
 	b := filepath.Base(src)
 	if b == autoClass+".zy" {
@@ -219,9 +268,15 @@ func identOf(v any) string {
 
 // observe runs one probe; the answer is "-" (does not resolve), "y"/"n", a definition id ("d3",
 // "F") or "!<reason>" for a crash.
-func (w *world) observe(v int, pi int, name int) (val string, note string) {
+func (w *world) observe(v int, pi int, name int, spell int) (val string, note string) {
 	p := probes[pi]
 	nm := w.nm.of(name)
+	switch spell {
+	case spLower:
+		nm = strings.ToLower(nm)
+	case spUpper:
+		nm = strings.ToUpper(nm)
+	}
 	vm := w.vm(v)
 	if !p.Script {
 		g := runner.Guard(func() {
@@ -472,9 +527,48 @@ func execute(h []Op, nm names, dir string, wantRaw bool) execResult {
 		}
 		return m.used
 	}
-	check := func(step, v, pi, name int, final bool) {
+	var ever [nSym]bool // names some VM (live or discarded) has defined so far
+	var check func(step, v, pi, name int, final bool)
+	// variant probes: same probe under the all-lower / all-upper spelling, leak-only oracle.
+	checkV := func(step, v, pi, name, spell int, final bool) {
 		p := probes[pi]
-		got, note := w.observe(v, pi, name)
+		got, note := w.observe(v, pi, name, spell)
+		rel, exp, cat := judgeVariant(m, h, v, p, name, got)
+		if rel != "" {
+			res.Fails = append(res.Fails, failure{Label: rel + ":" + kindsLabel(p.Kinds) + "~case", VM: v, Probe: p.Name, Name: nameLabel(name) + spellLabel[spell], Exp: exp, Got: got, Note: note, Step: step})
+		} else {
+			res.Cats[cat]++
+		}
+		if final {
+			res.Obs = append(res.Obs, canonID(m, h, got))
+			if wantRaw && got != "-" && got != "n" {
+				res.Raw = append(res.Raw, fmt.Sprintf("%s %s(%s%s) = %s  [allowed %s]", vmLabel(v), p.Name, nameLabel(name), spellLabel[spell], got, exp))
+			}
+		}
+	}
+	// variantRound: every live VM looks every defined name up under the variant spellings. With
+	// scripts=false only the Go-level lookups run (cheap "trigger" pass: afterwards each owner has
+	// looked its own names up under each variant, whatever the VM order).
+	variantRound := func(step int, scripts, final bool) {
+		for _, v := range m.live() {
+			for n := 0; n < nSym; n++ {
+				if !ever[n] {
+					continue
+				}
+				for _, sp := range []int{spLower, spUpper} {
+					for pi, p := range probes {
+						if p.Script && !scripts {
+							continue
+						}
+						checkV(step, v, pi, n, sp, final)
+					}
+				}
+			}
+		}
+	}
+	check = func(step, v, pi, name int, final bool) {
+		p := probes[pi]
+		got, note := w.observe(v, pi, name, spExact)
 		rel, exp, cat := judge(m, h, v, p, name, got)
 		if rel != "" {
 			res.Fails = append(res.Fails, failure{Label: rel + ":" + kindsLabel(p.Kinds), VM: v, Probe: p.Name, Name: nameLabel(name), Exp: exp, Got: got, Note: note, Step: step})
@@ -503,6 +597,9 @@ func execute(h []Op, nm names, dir string, wantRaw bool) execResult {
 			w.run(o.VM, defSource(o.Kind, nm.of(o.Name), id), id+".zy", false)
 		}
 		m.apply(o, i)
+		if o.K == opDefine {
+			ever[o.Name] = true
+		}
 		switch o.K {
 		case opLookup:
 			for _, v := range m.live() {
@@ -539,5 +636,10 @@ func execute(h []Op, nm names, dir string, wantRaw bool) execResult {
 			}
 		}
 	}
+	// case-variant spellings: a Go-level pass in which every VM (so also every owner) looks the
+	// variants up, then the full probe set for everybody — so "owner first, then the others" is
+	// realised for every owner regardless of VM order.
+	variantRound(last, false, false)
+	variantRound(last, true, true)
 	return res
 }
